@@ -20,9 +20,15 @@ OUTSEQS = [
 
 
 def comp(name, stage=0, prods=(), repeat=False, agg=False, replicate=0, shutOn=(), restOn=("ResourceExhausted",),
-         maxR=None, outs=(1, 2)):
+         maxR=None, outs=(1, 2), loop=False, cond=False):
+    """loop: the component belongs to the (single) DoWhile document of the shape; cond: it produces the loop's condition.
+    A looped component has one node per iteration (`<i>#<name>`), all but iteration 0 instantiated at run time."""
     return dict(name=name, stage=stage, prods=list(prods), repeat=repeat, agg=agg, replicate=replicate,
-                shutOn=list(shutOn), restOn=list(restOn), maxR=maxR, outs=list(outs))
+                shutOn=list(shutOn), restOn=list(restOn), maxR=maxR, outs=list(outs), loop=loop, cond=cond)
+
+
+DW_ITERS = 3          # iteration slots per looped component (the environment answers "True" at most DW_ITERS - 1 times)
+COND_ANSWERS = ("True", "False", "garbage")
 
 
 KI = ("KnownIssue",)
@@ -63,6 +69,12 @@ BASE_SHAPES = {
     # a task that fails next to a long-running sibling and the sibling's not yet staged consumer (what a postponed
     # finishedCheck still has to stop at wake-up: _stopComponents for the one, fake finish for the other)
     "sibs": [comp("a", outs=(4, 1)), comp("s", outs=(1,)), comp("t", prods=["s"], outs=(1,))],
+    # DoWhile at run time: a loop (body, cond) fed by pre, consumed by post in the next stage; y runs next to the loop
+    "dw1": [comp("pre", outs=(1,)), comp("body", prods=["pre"], loop=True, outs=(1, 4)),
+            comp("cond", prods=["body"], loop=True, cond=True, shutOn=KI, outs=(1, 2)),
+            comp("post", stage=1, prods=["body"], outs=(1,))],
+    # the loop and its consumer in the same (only) stage, a long-running sibling, a condition that may be restarted
+    "dw2": [comp("cond", loop=True, cond=True, outs=(1, 3, 4)), comp("s", outs=(1,)), comp("post", prods=["cond"], outs=(1,))],
 }
 
 QUICK = ["chain2", "chain2s", "chain3", "stages2", "fanin", "obs", "obs2", "obschain", "agg", "restart", "xfail", "aggfail"]
@@ -70,6 +82,7 @@ THOROUGH = QUICK + ["aggchain", "diamond"]
 # growth item G02 (external kill, restart from a later stage, sleep / wake-up, memoization)
 G02_QUICK = ["chain2", "stages2", "fanin", "obs", "obs2", "agg", "xfail", "aggfail", "restart", "stages3", "sibs"]
 G02_THOROUGH = G02_QUICK + ["chain3", "obschain", "diamond", "obs3"]
+G02_DW = ["dw1", "dw2"]
 
 
 def expand(base):
@@ -87,7 +100,25 @@ def expand(base):
         repcount[c["name"]] = n
         return n
     nodes = []
+    looped = {c["name"] for c in base if c.get("loop")}
+    conds = [c["name"] for c in base if c.get("cond")]
     for c in base:
+        if c.get("loop"):
+            # one node per iteration; inside the loop a reference means the same iteration
+            for it in range(DW_ITERS):
+                prods = ["%d#%s" % (it, p) if p in looped else p for p in c["prods"]]
+                nodes.append(dict(c, node="%d#%s" % (it, c["name"]), replica=None, prods=prods, repl=False, iter=it, base=c["name"]))
+            continue
+        if any(p in looped for p in c["prods"]):
+            # a consumer of a looped component depends on every instance of it and on every condition component
+            prods = []
+            for p in c["prods"]:
+                if p in looped:
+                    prods += ["%d#%s" % (it, q) for it in range(DW_ITERS) for q in dict.fromkeys([p] + conds)]
+                else:
+                    prods.append(p)
+            nodes.append(dict(c, node=c["name"], replica=None, prods=list(dict.fromkeys(prods)), repl=False, iter=0, base=None))
+            continue
         n = count(c)
         for i in (range(n) if n else [None]):
             prods = []
@@ -99,7 +130,7 @@ def expand(base):
                     prods.append("%s%d" % (p, i))
                 else:
                     prods.append(p)
-            nodes.append(dict(c, node=c["name"] + ("" if i is None else str(i)), replica=i, prods=prods, repl=bool(n)))
+            nodes.append(dict(c, node=c["name"] + ("" if i is None else str(i)), replica=i, prods=prods, repl=bool(n), iter=0, base=None))
     return nodes
 
 
@@ -110,6 +141,7 @@ def tla_set(xs, quote=True):
 def shape_to_tla(nodes):
     idx = {n["node"]: i + 1 for i, n in enumerate(nodes)}
     f = lambda xs: "<<" + ", ".join(xs) + ">>"
+    bases = list(dict.fromkeys(n["base"] for n in nodes if n.get("loop")))
     return "[" + ", ".join([
         "n |-> %d" % len(nodes),
         "nstages |-> %d" % (max(n["stage"] for n in nodes) + 1),
@@ -122,6 +154,12 @@ def shape_to_tla(nodes):
         "restOn |-> " + f(tla_set(n["restOn"]) for n in nodes),
         "maxR |-> " + f(str(3 if n["maxR"] is None else n["maxR"]) for n in nodes),
         "outs |-> " + f(tla_set(n["outs"], False) for n in nodes),
+        # DoWhile: iteration of every node (0 outside the loop), looped / condition flags, a number per looped base component
+        "iter |-> " + f(str(n["iter"]) for n in nodes),
+        "looped |-> " + f("TRUE" if n.get("loop") else "FALSE" for n in nodes),
+        "cond |-> " + f("TRUE" if n.get("cond") else "FALSE" for n in nodes),
+        "base |-> " + f(str(bases.index(n["base"]) + 1 if n.get("loop") else 0) for n in nodes),
+        "K |-> %d" % (DW_ITERS if bases else 1),
     ]) + "]"
 
 
@@ -140,6 +178,57 @@ Shapes == <<
 OutSeqs == %s
 ====
 """ % (" ".join(shape_names), ",\n  ".join(shapes), outseqs_to_tla())
+
+
+def is_dowhile(base):
+    return any(c.get("loop") for c in base)
+
+
+def dowhile_package(base):
+    """(main FlowIR, DoWhile document) for a shape with looped components: conf/flowir_package.yaml + conf/dowhile.yaml.
+    Producers outside the loop are bound through inputBindings (type ref); the condition is the file `flag` in the
+    working directory of the condition component of the latest iteration."""
+    looped = [c for c in base if c.get("loop")]
+    names = {c["name"] for c in looped}
+    stage = looped[0]["stage"]
+    assert all(c["stage"] == stage for c in looped)
+    rm = {"config": {"backend": "simulator"}}
+
+    def wattrs(c):
+        wa = {"shutdownOn": list(c["shutOn"]), "restartHookOn": list(c["restOn"])}
+        if c["maxR"] is not None:
+            wa["maxRestarts"] = c["maxR"]
+        if c["repeat"]:
+            wa["repeatInterval"] = 10
+        if c["agg"]:
+            wa["aggregate"] = True
+        return wa
+    bind = {}
+    inner = []
+    for c in looped:
+        refs = []
+        for p in c["prods"]:
+            if p in names:
+                refs.append("%s:ref" % p)
+            else:
+                b = "in_%s" % p
+                bind[b] = "stage%d.%s:ref" % (next(x for x in base if x["name"] == p)["stage"], p)
+                refs.append("%s:ref" % b)
+        inner.append({"name": c["name"], "references": refs, "command": {"executable": "fake_executable", "arguments": " ".join(refs)},
+                      "workflowAttributes": wattrs(c), "resourceManager": {"config": dict(rm["config"])}})
+    cond = next(c for c in looped if c.get("cond"))
+    doc = {"type": "DoWhile", "inputBindings": {b: {"type": "ref"} for b in bind}, "loopBindings": {},
+           "condition": "%s/flag:output" % cond["name"], "components": inner}
+    comps = []
+    for c in base:
+        if c.get("loop"):
+            continue
+        refs = ["stage%d.%s:ref" % (next(x for x in base if x["name"] == p)["stage"], p) for p in c["prods"]]
+        comps.append({"name": c["name"], "stage": c["stage"], "references": refs,
+                      "command": {"executable": "fake_executable", "arguments": " ".join(refs)},
+                      "workflowAttributes": wattrs(c), "resourceManager": {"config": dict(rm["config"])}})
+    comps.append({"name": "theloop", "stage": stage, "$import": "dowhile.yaml", "bindings": bind})
+    return {"components": comps}, doc
 
 
 def flowir(base):
